@@ -1,6 +1,7 @@
 package verifrepro
 
 import (
+	"math"
 	"testing"
 
 	"github.com/dolthub/vitess/go/vt/proto/query"
@@ -87,5 +88,62 @@ func TestC26CompareNullValuesFlag(t *testing.T) {
 				t.Errorf("BIGINT.CompareValue(%d, NULL) = %d, err=%v; want > 0 and no error", x, hi, err)
 			}
 		}()
+	}
+}
+
+// C26-X1 compareIntToFloat/int64(float64number)/hi and compareUintToFloat/uint64(float64number)/hi:
+// the JSON number order compares a Go integer with a float64 after converting the float to the
+// integer type; a float at or above 2^63 (resp. exactly 2^64) is outside the target type, the
+// conversion result is implementation-defined (MinInt64 / 0 on amd64) and the integer compares
+// GREATER than a far larger float. Together with the int/int and float/float paths this makes
+// the order intransitive: 5 < 7, 7 < 1e30 (float/float), but 5 > 1e30.
+func TestC26JSONIntVsLargeFloat(t *testing.T) {
+	_, ctx := newEngine(t)
+	cases := []struct {
+		name string
+		a, b any
+		want int
+	}{
+		{"int64 5 vs float 1e30", int64(5), float64(1e30), -1},
+		{"int64 5 vs float 2^63", int64(5), float64(9223372036854775808), -1},
+		{"float 1e30 vs int64 5", float64(1e30), int64(5), 1},
+		{"int64 max vs float 2^63", int64(math.MaxInt64), float64(9223372036854775808), -1},
+		{"uint64 max vs float 2^64", uint64(math.MaxUint64), float64(18446744073709551616), -1},
+		{"float 2^64 vs uint64 max", float64(18446744073709551616), uint64(math.MaxUint64), 1},
+		// controls: in-range floats and the guarded sides (uint64(2^64) happens to saturate on this toolchain)
+		{"uint64 5 vs float 2^64", uint64(5), float64(18446744073709551616), -1},
+		{"int64 5 vs float 7.5", int64(5), float64(7.5), -1},
+		{"int64 5 vs float -1e30", int64(5), float64(-1e30), 1},
+		{"uint64 5 vs float 1e30", uint64(5), float64(1e30), -1},
+		{"float 7 vs float 1e30", float64(7), float64(1e30), -1},
+	}
+	for _, tc := range cases {
+		got, err := types.CompareJSON(ctx, tc.a, tc.b)
+		if err != nil {
+			t.Fatalf("%s: %v", tc.name, err)
+		}
+		if got != tc.want {
+			t.Errorf("CompareJSON(%s) = %d, want %d", tc.name, got, tc.want)
+		}
+	}
+}
+
+// The same through SQL: CAST(5 AS JSON) holds int64 5, a JSON literal holds float64.
+func TestC26SqlJSONIntVsLargeFloat(t *testing.T) {
+	e, ctx := newEngine(t)
+	for _, q := range []struct {
+		q    string
+		want string
+	}{
+		{"SELECT CAST(5 AS JSON) < CAST('1e30' AS JSON)", "[[true]]"},
+		{"SELECT CAST('1e30' AS JSON) > CAST(5 AS JSON)", "[[true]]"},
+		{"SELECT CAST(18446744073709551615 AS JSON) < CAST('18446744073709551616' AS JSON)", "[[true]]"},
+		{"SELECT CAST(18446744073709551615 AS JSON) = CAST('18446744073709551616' AS JSON)", "[[false]]"},
+		{"SELECT CAST(5 AS JSON) < CAST('7.5' AS JSON)", "[[true]]"},
+	} {
+		rows := mustRun(t, e, ctx, q.q)
+		if show(rows) != q.want {
+			t.Errorf("%s = %s, want %s", q.q, show(rows), q.want)
+		}
 	}
 }
